@@ -131,6 +131,16 @@ impl<VM: VMBinding> SFT for ImmixSpace<VM> {
         if self.common.unlog_allocated_object {
             VM::VMObjectModel::GLOBAL_LOG_BIT_SPEC
                 .mark_as_unlogged::<VM>(_object, Ordering::SeqCst);
+            // Nursery GCs neither trace nor sweep a mature space, and `is_live` is decided by the
+            // mark bit: a pre-tenured object must be born marked, like every other mature
+            // object, or nursery GCs treat it as dead (weak references to it get cleared, its
+            // finalizer runs).  The next full-heap GC resets the mark bits before tracing.
+            VM::VMObjectModel::LOCAL_MARK_BIT_SPEC.store_atomic::<VM, u8>(
+                _object,
+                Self::MARKED_STATE,
+                None,
+                Ordering::SeqCst,
+            );
         }
         #[cfg(feature = "vo_bit")]
         crate::util::metadata::vo_bit::set_vo_bit(_object);
